@@ -545,6 +545,12 @@ public:
     virtual void fail(char* fail_string) CPPUTEST_OVERRIDE
     {
         UtestShell* currentTest = UtestShell::getCurrent();
+#if CPPUTEST_USE_MEM_LEAK_DETECTION
+        /* The thread-safe overloads call the detector with its mutex held, and the terminator below leaves by
+         * longjmp, which skips the destructor of their scoped lock: release the mutex here or the next allocation hangs. */
+        if (operator_delete_fptr == threadsafe_mem_leak_operator_delete)
+            MemoryLeakWarningPlugin::getGlobalDetector()->getMutex()->Unlock();
+#endif
         currentTest->failWith(FailFailure(currentTest, currentTest->getName().asCharString(), currentTest->getLineNumber(), fail_string), UtestShell::getCurrentTestTerminatorWithoutExceptions());
     } // LCOV_EXCL_LINE
 };
